@@ -138,7 +138,8 @@ CLAIMED["C16"] = c(
     "five kinds: crawl batch, rule installation, page query, network query, page-link query): a batch run alone equals the request, and the "
     "request translated from the source with its sequential meaning (GenTraphB.v, Props/C16s.v) answers the specification's report and "
     "leaves the model's next files; the lazily reading rule-installation coroutine advanced alone equals the sequential request "
-    "(C16_rule_alone); for ANY "
+    "(C16_rule_alone), and each of the three query coroutines advanced alone yields exactly the sequential answer, order and refusal "
+    "included (C16_pages_query_alone, C16_network_query_alone, C16_pagelinks_query_alone); for ANY "
     "mix of these jobs advanced by ANY schedule from any state related to the specification, the invariants (well-formed tree, addresses, "
     "stub chains, Rcore) hold at every intermediate state (C16_invariant_rules) and, once all are done, the pages with crawled marks are "
     "those of the batches applied one after another, the out- and in-chains of every page are permutations of the sequential ones, in = "
